@@ -13,7 +13,7 @@ from vlib.nlp import NLP, close, DMa
 
 ID = "C10"
 LEVEL = "exploration"
-BUDGET = {"quick": (8, 60), "thorough": (16, 900)}
+BUDGET = {"quick": (8, 60), "thorough": (16, 2000)}
 RULE = ("Generated OCP (all sampling methods, N 1..4, M 1..3, every grid class incl. localized, fixed/free horizon, optional scaling) and a generated sequence of set_initial calls: "
         "targets = column states, controls, variables of each grid kind, algebraic variables (DirectCollocation), T and t0; forms = number, n-vector (list / 1-D numpy / DM), n x N and "
         "n x (N+1) arrays (numpy, DM, 1-D for scalars), expression of t; repeated calls per symbol; each call before or after the first transcription. Read-back through "
